@@ -20,6 +20,8 @@ BOUNDS = {
               "encode(decode(s))": "every string over the alphabet of length 1..10",
               "rejection": "every string of length 1..5 of arbitrary Unicode code points",
               "checksum soundness": "every string over the alphabet of length 0..8; checksum round trip for every payload of 0..3 bytes; corrupted checksum for payloads of 0..2 bytes",
+              "any length": "encode_base58 on every byte string of 12..40, 48, 64 and 82 bytes with a non-zero first byte (thorough: every length 12..128); decode_base58 on every alphabet string of 13, 17 and 21 characters not starting with '1' (thorough: 13..40)",
+              "real-size decoder": "decode_base58 on every string of 34/35/51/52 characters (first character from the set such strings start with, the rest symbolic); thorough adds 111 characters",
               "real sizes": "encode_base58_checksum on every 21-byte address payload (version 05/6f/c4), 33/34-byte WIF payload (80/ef), content symbolic; thorough adds version 00 and the 78-byte extended-key payloads (12 versions)"},
     "thorough": {"decode(encode(b))": "length 1..11", "encode(decode(s))": "length 1..12", "rejection": "length 1..6",
                  "checksum soundness": "alphabet strings of length 0..9; payloads of 0..4 bytes; corrupted checksum 0..3 bytes"},
@@ -27,8 +29,12 @@ BOUNDS = {
 STUBS = ["hashlib.sha256 -> uninterpreted function per input length (integer-valued, one per output byte)"]
 ASSUMPTIONS = ["SHA-256 is a function with 32-byte output (nothing else)",
                "engine models of hex()/bytes.fromhex()/int.to_bytes for mathematical integers"]
-OUTSIDE = ["decoding of strings longer than 12 characters as a fully symbolic round trip (the real *encoder* is run on the "
-           "21/33/34/78-byte payloads the wallet emits: value relation, first character, length)"]
+OUTSIDE = ["the fully symbolic round trip (decode(encode(b)) == b as one query) beyond 11 bytes / 12 characters; for the real sizes "
+           "(21/33/34/78-byte payloads, 34/35/51/52/111-character strings) the encoder and the decoder are each run on symbolic "
+           "content and checked against the positional value relation, from which the round trip follows by uniqueness of the "
+           "base-58 representation (argument stated, not mechanised)",
+           "the decoder on strings longer than 40 characters other than the wallet's own lengths (34/35/51/52/111): the query that "
+           "decides the byte length of the result (a comparison of a 57-term linear sum with 16^d) took z3 6-12 minutes per case"]
 LEVEL_TEXT = ("Bounded symbolic model checking of the real encode_base58/decode_base58/decode_base58_checksum: "
               "both round-trip directions, the leading-zero rule, rejection of foreign characters and checksum "
               "soundness are solver queries over all byte strings / strings up to the stated lengths.")
@@ -211,6 +217,55 @@ def encode_real(E, R, prefix, plen):
     return len(s)
 
 
+def decode_real(E, R, first, m):
+    """the real decode_base58 on strings of the lengths the wallet emits (addresses 34/35, WIF 51/52, extended keys 111):
+    first character from the set that starts such strings, every other character symbolic.  Asserts the positional value
+    relation between the string and the decoded bytes (for these lengths decoding is the exact inverse of encoding by
+    uniqueness of the base-58 representation) and the decoded length."""
+    if len(first) > 1:
+        head = E.chars("h", 1, ALPHABET)
+        if E.symbolic:
+            import z3
+            from sx.values import z3bool
+            E.assume(z3.Or(*[z3bool(head[0] == ch) for ch in first]))
+        else:
+            E.assume(head in first)
+    else:
+        head = first
+    s = head + E.chars("s", m - 1, ALPHABET)
+    d = E.run(R.helper.decode_base58, s)
+    if isinstance(d, Raised):
+        E.fail("decode_base58 accepts every alphabet string of address / WIF / extended-key length")
+        return "raised"
+    value_relation(E, s, d, "real-size decode")
+    return len(d)
+
+
+def decode_any(E, R, m):
+    """decode_base58 on every alphabet string of m characters that does not start with '1' (leading '1's are the
+    leading-zero rule, covered for all counts by the short cases and by the real-size ones)"""
+    s = E.chars("s", m, ALPHABET)
+    E.assume(~(s[0] == "1") if E.symbolic else s[0] != "1")
+    d = E.run(R.helper.decode_base58, s)
+    if isinstance(d, Raised):
+        E.fail("decode_base58 accepts every alphabet string")
+        return "raised"
+    value_relation(E, s, d, "decode (any length)")
+    return len(d)
+
+
+def encode_any(E, R, n):
+    """encode_base58 on every byte string of n bytes with a non-zero first byte: positional value relation"""
+    b = E.bytes("b", n, mode="int")
+    E.assume(~(b[0] == 0) if E.symbolic else b[0] != 0)
+    s = E.run(R.helper.encode_base58, b)
+    if isinstance(s, Raised):
+        E.fail("encode_base58 accepts every non-empty byte string")
+        return "raised"
+    value_relation(E, s, b, "encode (any length)")
+    return len(s)
+
+
 def E_eq(E, a, b):
     from sx.values import SxBool, z3bool
     r = E.eq(a, b)
@@ -252,6 +307,14 @@ def cases(tier):
     for n in range(0, (2 if q else 3) + 1):
         cs.append(Case("checksum_corrupt[%d]" % n, "checksum_corrupt", dict(n=n), weight=2 ** (n + 4),
                        need=("wrong checksum rejected",)))
+    for (first, m) in ((("3", 34), ("mn", 34), ("2", 35), ("5", 51), ("KL", 52)) if q else
+                       (("3", 34), ("mn", 34), ("2", 35), ("5", 51), ("KL", 52), ("9", 51), ("c", 52), ("x", 111), ("t", 111))):
+        cs.append(Case("decode_real[%s,%d]" % (first, m), "decode_real", dict(first=first, m=m), weight=m,
+                       need=("real-size decode: positional base-58 value",)))
+    for m in ((13, 17, 21) if q else range(13, 41)):
+        cs.append(Case("decode_any[%d]" % m, "decode_any", dict(m=m), weight=m // 4, need=("decode (any length): positional base-58 value",)))
+    for n in (list(range(12, 41)) + [48, 64, 82] if q else range(12, 129)):
+        cs.append(Case("encode_any[%d]" % n, "encode_any", dict(n=n), weight=n * 2, need=("encode (any length): positional base-58 value",)))
     for n in range(0, (1 if q else 2) + 1):
         for first in ("encode", "decode"):
             cs.append(Case("checksum_history[%d,%s]" % (n, first), "checksum_history", dict(n=n, first=first), weight=2 ** (n + 4),
